@@ -10,6 +10,7 @@
   4 skip       unselected indices are in neither the existing nor the missing list; learners return stored elements
   5 writes     the learner path dumps its own results (force_dump=True), nobody else forces a dump
   6 axes       split_independent_axes reads each axis length at the position of that axis in the input's axes
+  7 one-shot   a flatiter / generator valued local has at most one consumer on any path
 """
 
 from __future__ import annotations
@@ -252,8 +253,60 @@ def rule_axes(ctx: Ctx) -> None:
     ctx.tri("6-axes", ia, gen if gen is not None else ia.node, good, bad, "dimension = position of the axis name in that input's axes", why, why, key="axis-position")
 
 
+ONE_SHOT = ("flatiter", "Iterator", "Generator")
+NON_CONSUMING = {"len", "isinstance", "id", "type", "repr", "str", "print", "bool"}
+
+
+def rule_one_shot(ctx: Ctx) -> None:
+    """The selection mask is a one-shot iterator (`np.flatiter`): it can be walked once.
+
+    A local bound to the result of a function whose return annotation is a flatiter / Iterator / Generator is exhausted by its
+    first consumer; a second consumer on the same path sees it empty (every index then counts as unselected and a partial run
+    silently computes nothing).  Rule: no two consuming uses of such a local where one can follow the other."""
+    P = ctx.prog
+    n = 0
+    for mn in ("pipefunc.map._run", "pipefunc.map.adaptive", "pipefunc.map._prepare", "pipefunc.map._shapes"):
+        for fn in P.functions_in(mn):
+            cfg = None
+            sources: dict[str, ast.AST] = {}
+            for a in walk_no_nested(fn.node):
+                if isinstance(a, ast.Assign) and len(a.targets) == 1 and isinstance(a.targets[0], ast.Name) and isinstance(a.value, ast.Call):
+                    for callee in ctx.cg.resolve_callable(fn, a.value.func):
+                        r = callee.node.returns
+                        if r is not None and any(w in norm(r) for w in ONE_SHOT) and not any(d.endswith("contextmanager") for d in callee.decorators):
+                            sources[a.targets[0].id] = a
+            for p_ in fn.params:
+                if p_.annotation is not None and any(w in norm(p_.annotation) for w in ONE_SHOT):
+                    sources[p_.arg] = p_
+            for name, src in sources.items():
+                par = {id(c): q for q in ast.walk(fn.node) for c in ast.iter_child_nodes(q)}
+                uses = []
+                for x in walk_no_nested(fn.node):
+                    if not (isinstance(x, ast.Name) and x.id == name and isinstance(x.ctx, ast.Load)):
+                        continue
+                    up = par.get(id(x))
+                    if isinstance(up, ast.Starred):
+                        up = par.get(id(up))
+                    consuming = (isinstance(up, ast.Call) and x is not up.func and dotted(up.func) not in NON_CONSUMING) or (isinstance(up, (ast.For, ast.comprehension)) and up.iter is x)
+                    if consuming:
+                        uses.append(x)
+                if not uses:
+                    continue
+                n += 1
+                cfg = cfg or ctx.cfg(fn)
+                nodes = [cfg.node_containing(u) for u in uses]
+                clash = [(u1, u2) for (u1, n1), (u2, n2) in itertools.permutations(zip(uses, nodes), 2) if n1 is not None and n2 is not None and n1 != n2 and n2 in cfg.reachable_from(n1)
+                         and (u1.lineno, u1.col_offset) < (u2.lineno, u2.col_offset)]
+                same_stmt = [(u1, u2) for (u1, n1), (u2, n2) in itertools.combinations(zip(uses, nodes), 2) if n1 == n2]
+                bad = clash or same_stmt
+                ctx.add("7-one-shot", fn, bad[0][1] if bad else uses[0], not bad, f"the one-shot iterator `{name}` has a single consumer on every path" if not bad else
+                        f"`{name}` is a one-shot iterator ({norm(getattr(src, 'annotation', None) or src)[:50]}) that was already consumed at line {bad[0][0].lineno}: this second consumer sees it exhausted (nothing is selected any more)",
+                        key=f"one-shot {fn.name}.{name}")
+    ctx.floor("7-one-shot", n, 2)
+
+
 def check(ctx: Ctx) -> None:
-    for rule in (rule_sequence, rule_one_mask, rule_validated, rule_skip, rule_writes, rule_axes):
+    for rule in (rule_sequence, rule_one_mask, rule_validated, rule_skip, rule_writes, rule_axes, rule_one_shot):
         ctx.run(rule)
 
 
